@@ -321,6 +321,7 @@ def claim(world, row_id: int):
     """Claim a designated row through the real poll_one (from the calling thread)."""
     world.expose(row_id)
     msg = world.queue.poll_one()
+    world.unhide()
     return msg
 
 
